@@ -342,3 +342,52 @@ def check_wake_snapshot(res, lcs) -> int:
         sample={"kernel": lc.name, "read": a.loc, "func": a.func},
       )
   return n
+
+
+def check_order_arbitrary_lists(res, all_lcs, scope) -> int:
+  """R-RACE.6: an array dimension that some launch fills through atomically allocated slots holds its entries in an
+  order that depends on the thread schedule (the *set* of entries does not). Consumers may scan it, index it by their
+  own position, or follow stored addresses - but reading the entry at a fixed offset from a loop variable or thread
+  index (`list[g - 1]`, `list[i + 1]`) makes the result depend on which entries happen to be neighbours. Block-internal
+  offsets (`slot + j` with slot loaded or just allocated) are not of that form and are not reported."""
+  slot_dims = {}
+  for lc in all_lcs:
+    for a in lc.keval.accesses:
+      if a.is_write and not a.is_atomic and a.idx:
+        for k, ix in enumerate(a.idx):
+          if isinstance(ix, T) and any(s.op == "at" for s in subterms(ix)):
+            slot_dims.setdefault(array_key(lc, a.root), set()).add(k)
+  n = 0
+  seen = set()
+  for lc in scope:
+    for a in lc.keval.accesses:
+      if a.is_write or not a.idx:
+        continue
+      key = array_key(lc, a.root)
+      dims = slot_dims.get(key)
+      if not dims:
+        continue
+      for k, ix in enumerate(a.idx):
+        if k not in dims or not isinstance(ix, T):
+          continue
+        af = affine(ix)
+        atoms = list(af.coef.items())
+        if len(atoms) != 1 or atoms[0][0].op not in ("lv", "tid") or atoms[0][1] != 1:
+          continue
+        sig = (lc.name, key, k, af.const != 0)
+        if sig in seen:
+          continue
+        seen.add(sig)
+        n += 1
+        res.ob(
+          af.const == 0,
+          f"{lc.name}|{key}|dim{k}|{'neighbour' if af.const else 'own-position'}",
+          Finding(
+            "R-RACE.6",
+            f"{lc.name}|{key}|neighbour-read-of-slot-ordered-list",
+            f"`{a.root}[..., {show(ix)}, ...]` reads the entry at offset {af.const:+d} from the loop/thread position in a dimension that is filled through atomically allocated slots: which entry is the neighbour depends on the thread schedule of the filling launch",
+            a.loc,
+          ),
+          sample={"kernel": lc.name, "array": key, "index": show(ix)} if n % 40 == 1 else None,
+        )
+  return n
